@@ -11,7 +11,7 @@ written against ("pinned") and, where the repair proposed in REPORT-bashsem.md t
 repair ("fixed").  A template with any other hash means the skeleton changed under the model: the tie is broken
 until the model is re-read against the new text (lib/vf/t2.py reports it).
 
-usage: bash_templates.py <repo> [--write-lock pinned|fixed]   (prints the status / updates the lock file)"""
+usage: bash_templates.py <repo> [--write-lock pinned|fixed|repaired]   (prints the status / updates the lock file)"""
 import hashlib
 import json
 import os
@@ -56,29 +56,26 @@ def load_lock():
     return json.load(open(LOCK))
 
 
+VARIANTS = ['pinned', 'fixed', 'repaired']
+
+
 def status(repo):
+    """variant = the first of VARIANTS whose hashes (falling back to `pinned` where a variant leaves a template
+    alone) all match the current templates; None if no variant matches."""
     lock = load_lock()
     cur = {k: digest(t) for k, t in templates(repo).items()}
-    changed, fixed_hits, pinned_only = [], 0, True
-    for k, h in cur.items():
-        if k not in lock:
-            continue
-        e = lock[k]
-        if h == e.get('pinned'):
-            continue
-        if h == e.get('fixed'):
-            fixed_hits += 1
-            continue
-        changed.append(k)
     missing = [k for k in lock if k not in cur]
     extra = [k for k in cur if k not in lock]
-    nfixable = sum(1 for e in lock.values() if 'fixed' in e)
     variant = None
-    if not changed and not missing and not extra:
-        if fixed_hits == 0:
-            variant = 'pinned'
-        elif fixed_hits == nfixable:
-            variant = 'fixed'
+    if not missing and not extra:
+        for cand in VARIANTS:
+            if all(cur[k] == lock[k].get(cand, lock[k].get('pinned')) for k in cur):
+                variant = cand
+                break
+    known = lambda k: cur[k] in lock.get(k, {}).values()
+    changed = [k for k in cur if k in lock and not known(k)]
+    if variant is None and not changed and not missing and not extra:
+        changed = ['(mixture of known variants)']
     return dict(variant=variant, changed=changed, missing=missing, extra=extra)
 
 
@@ -93,7 +90,7 @@ def main():
             if which == 'pinned':
                 e['pinned'] = h
             elif h != e.get('pinned'):
-                e['fixed'] = h
+                e[which] = h
         json.dump(lock, open(LOCK, 'w'), indent=1, sort_keys=True)
         print('wrote', LOCK)
         return
